@@ -6,6 +6,7 @@ through and returned ALSO ON FAILURE), `Model/Row.lean` (`SerializedValues`).  H
 -/
 import ScyllaVerif.Model.Carrier
 import ScyllaVerif.Model.Row
+import ScyllaVerif.Model.C17Bind
 import ScyllaVerif.Proofs.Carrier
 import ScyllaVerif.Proofs.Row
 import ScyllaVerif.Proofs.CarrierFits
@@ -14,6 +15,7 @@ import ScyllaVerif.Proofs.CarrierTc
 import ScyllaVerif.Proofs.CarrierDims
 import ScyllaVerif.Proofs.CarrierDocs
 import ScyllaVerif.Proofs.PagerStream
+import ScyllaVerif.Proofs.CarrierUdt
 import ScyllaVerif.Generated.DocMatrix
 
 namespace ScyllaVerif.Props.C17
@@ -479,6 +481,40 @@ theorem kind_mismatch_rejected (t : CqlTy) (x : RVal) (ws : Bool) (buf : Bytes)
 example : kindOk (.native .text) (strip (.vec [])).2 = false ∧ kindOk (.map (.native .int) (.native .int)) (strip (.some (.vec []))).2 = false ∧
     ser (.native .text) (.vec []) true [1, 2] = ([1, 2], some ⟨[], .notSetOrList⟩) := by decide
 
+/-! ### `CqlValue::UserDefinedType`: the field walk is the declarative rule -/
+
+/-- **The UDT rule, declaratively** (what the harness's independent `dyn_fits` states, now a theorem about the
+model of `serialize_udt`'s look-up / remove / left-over walk): a UDT value fits a UDT column iff keyspace and type
+name are equal and EVERY field the value names exists in the column's type and fits the type of the like-named
+field (fields the value does not name are null).  Field names distinct on both sides. -/
+theorem udt_value_fits_iff (ks name vks vname : String) (fields : List (String × CqlTy)) (fs : List (String × RVal))
+    (hf : (fields.map (·.1)).Nodup) (hm : (fs.map (·.1)).Nodup) :
+    fits (.udt ks name fields) (.udt vks vname fs) = true ↔
+      vks = ks ∧ vname = name ∧ ∀ p, p ∈ fs → ∃ t, (p.1, t) ∈ fields ∧ fits t p.2 = true := by
+  rw [fits]
+  simp only [strip, Bool.not_false, Bool.true_or, Bool.true_and, Bool.and_eq_true, decide_eq_true_eq, and_assoc]
+  rw [ScyllaVerif.Proofs.CarrierUdt.fitsUdt_iff fields fs hf hm]
+
+/-- **A value naming a field the type lacks is always refused** — whether it has fewer, as many or more fields
+than the type, and even if that field is null: the unknown field's data is never silently dropped. -/
+theorem udt_unknown_field_rejected (ks name vks vname : String) (fields : List (String × CqlTy))
+    (fs : List (String × RVal)) (hf : (fields.map (·.1)).Nodup) (hm : (fs.map (·.1)).Nodup)
+    (p : String × RVal) (hp : p ∈ fs) (hun : ∀ t, (p.1, t) ∉ fields) (ws : Bool) (buf : Bytes) :
+    ∃ e, (ser (.udt ks name fields) (.udt vks vname fs) ws buf).2 = some e := by
+  apply ser_rejects
+  cases h : fits (.udt ks name fields) (.udt vks vname fs) with
+  | false => rfl
+  | true =>
+    obtain ⟨_, _, hall⟩ := (udt_value_fits_iff ks name vks vname fields fs hf hm).mp h
+    obtain ⟨t, ht, _⟩ := hall p hp
+    exact absurd ht (hun t)
+
+/-- Non-vacuity: the shape of the earlier missed seeded change — `{a, zzz}` against `udt{a, b, c}` (fewer fields than
+the type, one unknown). -/
+example : (ser (.udt "ks" "t" [("a", .native .int), ("b", .native .text), ("c", .native .int)])
+    (.udt "ks" "t" [("a", .some (.scalar .i32 [0, 0, 0, 1])), ("zzz", .none)]) true []).2
+      = some ⟨[], .noSuchFieldInUdt⟩ := by decide +kernel
+
 /-! ## Part 3 — deserialization: `type_check` -/
 
 open ScyllaVerif.Proofs.CarrierTc (tcheck_iff tcheckCols_iff)
@@ -548,6 +584,33 @@ theorem checked_collection_kind (c k v : Carrier) (t : CqlTy) :
     (deserAccepts .udtIter t = true → ∃ ks n fs, t = .udt ks n fs) := by
   refine ⟨?_, ?_, ?_, ?_, ?_, ?_, ?_, ?_, ?_⟩ <;> intro h <;> cases t <;> simp [deserAccepts] at h <;> simp
 
+/-- **Decoding under checked columns never reaches a panic site of the typed readers**: for every carrier type and
+column type that passed `type_check`, at any nesting depth (`Vec<BTreeMap<i32, (Vec<String>, HashSet<Uuid>)>>`, …),
+none of the `unreachable!("Typecheck should have prevented this scenario!")` / `expect("Type check should have
+prevented this!")` sites is reachable. -/
+theorem checked_column_never_panics (c : Carrier) (t : CqlTy) (h : tcheck c t = none) : deserPanics c t = false :=
+  ScyllaVerif.Proofs.CarrierTc.accepted_no_panic c t ((deser_typecheck_iff c t).mp h)
+
+/-- **`next` of a typed iterator never panics on shape**: every row decoded through an iterator that
+`typedIterNew` handed out (any number of rows) has exactly the columns the row type expects (no
+`unreachable!` for a missing column, no failed `assert!(row.next().is_none())`) and every column's reader is safe. -/
+theorem typed_iter_next_never_panics (rc : RowCarrier) (specs : List CqlTy) (rows : Nat) (it : TypedIter)
+    (h : typedIterNew rc specs rows = .ok it) : rowDecodePanics it.rc it.specs = false := by
+  obtain ⟨h1, h2, h3⟩ := typed_iter_checked rc specs rows it h
+  rw [h1, h2]
+  cases rc with
+  | untyped => rfl
+  | cols cs =>
+    obtain ⟨hl, hz⟩ := (row_typecheck_iff cs specs).mp h3
+    simp [rowDecodePanics, hl, ScyllaVerif.Proofs.CarrierTc.acceptedZip_no_panic cs specs hz]
+
+/-- Non-vacuity: WITHOUT the check the sites are reachable (so the theorems are not about an empty set). -/
+example : deserPanics (.vec (.scalar .i32)) (.native .int) = true ∧
+    deserPanics (.tuple [.scalar .i32]) (.tuple [.native .int, .native .int]) = true ∧
+    rowDecodePanics (.cols [.scalar .i32]) [.native .int, .native .int] = true ∧
+    deserPanics (.vec (.btreeMap (.scalar .i32) (.tuple [.vec (.scalar .str), .hashSet (.scalar .uuid)])))
+      (.list (.map (.native .int) (.tuple [.list (.native .text), .set (.native .uuid)]))) = false := by decide
+
 example : typedIterNew (.cols [.scalar .i32, .scalar .str]) [.native .int, .native .blob] 1000
     = .error ⟨[.col 1], .mismatchedType⟩ := by rfl
 
@@ -577,6 +640,21 @@ theorem stream_ctor_refuses (check : List (String × CqlTy) → Bool) (p : PageM
     (h : check p.specs = false) : typedStream check (p :: ps) = none := by
   simp [typedStream, h]
 
+/-- … and the same for every row the pager's typed stream yields: it belongs to a page whose own columns passed
+the check (`stream_rows_checked`), hence decoding it cannot panic on shape. -/
+theorem stream_row_never_panics (cs : List Carrier) (pages : List PageM) (outs : List StreamOut)
+    (h : typedStream (fun specs => (tcheckRow (.cols cs) (specs.map (·.2))).isNone) pages = some outs)
+    (i : Nat) (hi : StreamOut.row i ∈ outs) :
+    ∃ p, pages[i]? = some p ∧ rowDecodePanics (.cols cs) (p.specs.map (·.2)) = false := by
+  obtain ⟨p, hp, hc⟩ := (stream_rows_checked _ pages outs h).1 i hi
+  refine ⟨p, hp, ?_⟩
+  have hnone : tcheckRow (.cols cs) (p.specs.map (·.2)) = none := by
+    cases hh : tcheckRow (.cols cs) (p.specs.map (·.2)) with
+    | none => rfl
+    | some e => simp [hh] at hc
+  obtain ⟨hl, hz⟩ := (row_typecheck_iff cs _).mp hnone
+  simp [rowDecodePanics, hl, ScyllaVerif.Proofs.CarrierTc.acceptedZip_no_panic cs _ hz]
+
 /-- Non-vacuity, the shape of the missed seeded change: page 0 `[pk int, v bigint]`, page 1 `[pk int, v double]`
 under a stream typed `(i32, i64)`: the two rows of page 0, then a type-check error — never a row of page 1. -/
 example :
@@ -595,6 +673,270 @@ example :
     accepts (.tuple [.scalar .i32]) (.tuple [.native .int, .native .text]) = true ∧
     tcheck (.vec (.hashMap (.scalar .i32) (.scalar .str))) (.list (.map (.native .int) (.native .int)))
       = some ⟨[.elem, .val], .mismatchedType⟩ := by decide +kernel
+
+/-! ## Part 3b — row-level binding: `SerializeRow` through `from_serializable`, and `new_from_frame` -/
+
+section RowBind
+open ScyllaVerif.C17Bind
+open ScyllaVerif.Proofs.Row (readValue_split parseFuel_cons)
+
+/-- A successful column loop is a run of the writer over the columns' serializers, and every value fitted. -/
+private theorem bindCells_run : ∀ (pairs : List (Col × RVal)) (w w' : RW), bindCells pairs w = (w', none) →
+    runW (pairs.map (fun p => WOp.cell (ser p.1.ty p.2 true))) w = (w', none) ∧
+    ∀ p, p ∈ pairs → fits p.1.ty p.2 = true
+  | [], w, w', h => by simp only [bindCells, Prod.mk.injEq, and_true] at h; subst h; simp [runW]
+  | (c, v) :: rest, w, w', h => by
+    simp only [bindCells, RW.makeCell] at h
+    simp only [List.map_cons, runW, RW.makeCell]
+    cases hr : ser c.ty v true w.buf with
+    | mk b oe =>
+      rw [hr] at h
+      cases oe with
+      | some e => simp at h
+      | none =>
+        simp only at h ⊢
+        obtain ⟨hrun, hfit⟩ := bindCells_run rest _ w' h
+        refine ⟨hrun, ?_⟩
+        intro p hp
+        rcases List.mem_cons.mp hp with rfl | hp
+        · exact ser_ok_fits c.ty v true w.buf (by rw [hr])
+        · exact hfit p hp
+
+private theorem bindByName_run (m : List (String × RVal)) : ∀ (cols : List Col) (w w' : RW),
+    bindByName m cols w = (w', none) →
+    runW (cols.map (fun c => WOp.cell (ser c.ty ((lookupName c.name m).getD .none) true))) w = (w', none) ∧
+    ∀ c, c ∈ cols → ∃ v, lookupName c.name m = some v ∧ fits c.ty v = true
+  | [], w, w', h => by simp only [bindByName, Prod.mk.injEq, and_true] at h; subst h; simp [runW]
+  | c :: rest, w, w', h => by
+    rw [bindByName] at h
+    cases hl : lookupName c.name m with
+    | none => simp [hl] at h
+    | some v =>
+      simp only [hl, RW.makeCell] at h
+      simp only [List.map_cons, runW, RW.makeCell, hl, Option.getD_some]
+      cases hr : ser c.ty v true w.buf with
+      | mk b oe =>
+        rw [hr] at h
+        cases oe with
+        | some e => simp at h
+        | none =>
+          simp only at h ⊢
+          obtain ⟨hrun, hfit⟩ := bindByName_run m rest _ w' h
+          refine ⟨hrun, ?_⟩
+          intro c' hc'
+          rcases List.mem_cons.mp hc' with rfl | hc'
+          · exact ⟨v, hl, ser_ok_fits _ v true w.buf (by rw [hr])⟩
+          · exact hfit c' hc'
+
+private theorem cells_good (ops : List (CqlTy × RVal)) :
+    GoodOps (ops.map (fun p => WOp.cell (ε := SerErr) (ser p.1 p.2 true))) := by
+  intro op hop
+  obtain ⟨p, _, rfl⟩ := List.mem_map.mp hop
+  exact ⟨ser_appends _ _ _, ser_writes_cell _ _⟩
+
+private theorem cells_total (ops : List (CqlTy × RVal)) :
+    totalValues (ops.map (fun p => WOp.cell (ε := SerErr) (ser p.1 p.2 true))) = ops.length := by
+  induction ops with
+  | nil => rfl
+  | cons p ps ih =>
+    simp only [totalValues, List.map_cons, List.sum_cons, WOp.values] at ih ⊢
+    rw [ih]; simp; omega
+
+/-- A positional row (tuple / slice / `Vec`) against another number of bind markers: `WrongColumnCount`, before
+anything is written — no `SerializedValues`. -/
+theorem bind_wrong_column_count (vs : List RVal) (cols : List Col) (h : cols.length ≠ vs.length) :
+    fromSerializable (.seq vs) cols = .error .wrongColumnCount := by
+  simp [fromSerializable, serializeRow, h]
+
+/-- **A positional bind that succeeds**: as many values as bind markers, EVERY value fits its column's type (at
+any nesting depth), the reported count is the number of bind markers = the number of encoded cells, ≤ 65535. -/
+theorem bind_positional_ok (vs : List RVal) (cols : List Col) (sv : SV)
+    (h : fromSerializable (.seq vs) cols = .ok sv) :
+    vs.length = cols.length ∧ (∀ p, p ∈ cols.zip vs → fits p.1.ty p.2 = true) ∧ Inv sv ∧ sv.count = cols.length := by
+  unfold fromSerializable serializeRow at h
+  by_cases hl : cols.length ≠ vs.length
+  · simp [hl] at h
+  · have hl' : cols.length = vs.length := by omega
+    simp only [hl, if_false] at h
+    cases hb : bindCells (cols.zip vs) RW.new with
+    | mk w oe =>
+      rw [hb] at h
+      cases oe with
+      | some e => simp at h
+      | none =>
+        obtain ⟨hrun, hfit⟩ := bindCells_run _ _ _ hb
+        have hops : (cols.zip vs).map (fun p => WOp.cell (ε := SerErr) (ser p.1.ty p.2 true)) =
+            ((cols.zip vs).map (fun p => (p.1.ty, p.2))).map (fun p => WOp.cell (ser p.1 p.2 true)) := by
+          simp [List.map_map]
+        rw [hops] at hrun
+        obtain ⟨⟨cs, hp, hlen⟩, hcount⟩ := writer_count_eq_cells _ (cells_good _) RW.new w winv_new hrun
+        rw [cells_total] at hcount
+        simp only [List.length_map, List.length_zip, RW.new, Nat.zero_add] at hcount
+        cases hf : w.finish with
+        | none => simp [hf] at h
+        | some sv' =>
+          simp only [hf, Except.ok.injEq] at h
+          subst h
+          unfold RW.finish u16Max at hf
+          split at hf
+          · rename_i hle
+            simp only [Option.some.injEq] at hf
+            subst hf
+            exact ⟨hl'.symm, hfit, ⟨hle, cs, hp, hlen⟩, by simp only [hcount]; omega⟩
+          · cases hf
+
+/-- **A positional bind with a mismatching value is refused** — wherever in the row it sits and however deep in
+the value the misfit is: no `SerializedValues` comes into being (the values bound so far are dropped with the writer). -/
+theorem bind_positional_mismatch_rejected (vs : List RVal) (cols : List Col) (p : Col × RVal)
+    (hp : p ∈ cols.zip vs) (hm : fits p.1.ty p.2 = false) : ∃ e, fromSerializable (.seq vs) cols = .error e := by
+  cases h : fromSerializable (.seq vs) cols with
+  | error e => exact ⟨e, rfl⟩
+  | ok sv =>
+    have := (bind_positional_ok vs cols sv h).2.1 p hp
+    rw [hm] at this; cases this
+
+/-- **A by-name bind that succeeds**: every bind marker found a value of its name, every such value fits, the count
+is the number of bind markers = the number of cells; and (`bind_byname_unknown_rejected`) no key is left over. -/
+theorem bind_byname_ok (m : List (String × RVal)) (cols : List Col) (sv : SV)
+    (h : fromSerializable (.byName m) cols = .ok sv) :
+    (∀ c, c ∈ cols → ∃ v, lookupName c.name m = some v ∧ fits c.ty v = true) ∧ Inv sv ∧ sv.count = cols.length := by
+  unfold fromSerializable serializeRow at h
+  cases hb : bindByName m cols RW.new with
+  | mk w oe =>
+    simp only [hb] at h
+    cases oe with
+    | some e => simp at h
+    | none =>
+      simp only at h
+      obtain ⟨hrun, hfit⟩ := bindByName_run m cols _ _ hb
+      have hops : cols.map (fun c => WOp.cell (ε := SerErr) (ser c.ty ((lookupName c.name m).getD .none) true)) =
+          (cols.map (fun c => (c.ty, (lookupName c.name m).getD RVal.none))).map (fun p => WOp.cell (ser p.1 p.2 true)) := by
+        simp [List.map_map]
+      rw [hops] at hrun
+      obtain ⟨⟨cs, hp, hlen⟩, hcount⟩ := writer_count_eq_cells _ (cells_good _) RW.new w winv_new hrun
+      rw [cells_total] at hcount
+      simp only [List.length_map, RW.new, Nat.zero_add] at hcount
+      cases hmn : minName (List.filter (fun k => !cols.any fun c => c.name == k) (List.map (fun x => x.fst) m)) with
+      | some k => simp [hmn] at h
+      | none =>
+        simp only [hmn] at h
+        cases hf : w.finish with
+        | none => simp [hf] at h
+        | some sv' =>
+          simp only [hf, Except.ok.injEq] at h
+          subst h
+          unfold RW.finish u16Max at hf
+          split at hf
+          · rename_i hle
+            simp only [Option.some.injEq] at hf
+            subst hf
+            exact ⟨hfit, ⟨hle, cs, hp, hlen⟩, hcount⟩
+          · cases hf
+
+/-- A bind marker for which the map has no value: refused (`ValueMissingForColumn`, or an earlier column's error). -/
+theorem bind_byname_missing_rejected (m : List (String × RVal)) (cols : List Col) (c : Col) (hc : c ∈ cols)
+    (hm : lookupName c.name m = none) : ∃ e, fromSerializable (.byName m) cols = .error e := by
+  cases h : fromSerializable (.byName m) cols with
+  | error e => exact ⟨e, rfl⟩
+  | ok sv =>
+    obtain ⟨v, hv, _⟩ := (bind_byname_ok m cols sv h).1 c hc
+    rw [hm] at hv; cases hv
+
+private theorem minName_none : ∀ (l : List String), minName l = none → l = []
+  | [], _ => rfl
+  | a :: r, h => by
+    simp only [minName] at h
+    cases hr : minName r with
+    | none => simp [hr] at h
+    | some b => simp only [hr] at h; split at h <;> cases h
+
+/-- A key of the map that names no bind marker: refused (`NoColumnWithName`, or an earlier error) — the value is
+not silently dropped. -/
+theorem bind_byname_unknown_rejected (m : List (String × RVal)) (cols : List Col) (k : String)
+    (hk : k ∈ m.map (·.1)) (hn : ∀ c, c ∈ cols → c.name ≠ k) : ∃ e, fromSerializable (.byName m) cols = .error e := by
+  cases h : fromSerializable (.byName m) cols with
+  | error e => exact ⟨e, rfl⟩
+  | ok sv =>
+    exfalso
+    unfold fromSerializable serializeRow at h
+    cases hb : bindByName m cols RW.new with
+    | mk w oe =>
+      simp only [hb] at h
+      cases oe with
+      | some e => simp at h
+      | none =>
+        simp only at h
+        cases hmn : minName (List.filter (fun k => !cols.any fun c => c.name == k) (List.map (fun x => x.fst) m)) with
+        | some k' => simp [hmn] at h
+        | none =>
+          have hnil := minName_none _ hmn
+          have hmem : k ∈ List.filter (fun k => !cols.any fun c => c.name == k) (List.map (fun x => x.fst) m) := by
+            rw [List.mem_filter]
+            refine ⟨hk, ?_⟩
+            simp only [Bool.not_eq_true', List.any_eq_false, beq_iff_eq]
+            intro c hc; exact hn c hc
+          rw [hnil] at hmem
+          cases hmem
+
+example :
+    fromSerializable (.seq [.scalar .i32 [0, 0, 0, 1], .scalar .str [97]]) [⟨"a", .native .int⟩, ⟨"b", .native .text⟩]
+      = .ok ⟨[0, 0, 0, 4, 0, 0, 0, 1, 0, 0, 0, 1, 97], 2⟩ ∧
+    fromSerializable (.seq [.scalar .i32 [0, 0, 0, 1]]) [⟨"a", .native .int⟩, ⟨"b", .native .text⟩] = .error .wrongColumnCount ∧
+    fromSerializable (.seq [.scalar .i32 [0, 0, 0, 1], .scalar .str [97]]) [⟨"a", .native .int⟩, ⟨"b", .native .int⟩]
+      = .error (.column "b" ⟨[], .mismatchedType⟩) ∧
+    fromSerializable (.byName [("a", .scalar .i32 [0, 0, 0, 1]), ("zz", .none)]) [⟨"a", .native .int⟩]
+      = .error (.noColumnWithName "zz") ∧
+    fromSerializable (.byName [("a", .scalar .i32 [0, 0, 0, 1])]) [⟨"a", .native .int⟩, ⟨"b", .native .int⟩]
+      = .error (.valueMissingForColumn "b") := ⟨rfl, rfl, rfl, rfl, rfl⟩
+
+/-! ### `new_from_frame` -/
+
+private theorem readValues_spec : ∀ (n : Nat) (body rest : Bytes), readValues n body = some rest →
+    ∃ pre cs fuel, body = pre ++ rest ∧ parseCellsFuel fuel pre = some cs ∧ cs.length = n
+  | 0, body, rest, h => by
+    simp only [readValues, Option.some.injEq] at h; subst h
+    exact ⟨[], [], 1, by simp, by simp [parseCellsFuel], rfl⟩
+  | n + 1, body, rest, h => by
+    rw [readValues] at h
+    cases hr : readValue body with
+    | none => simp [hr] at h
+    | some p =>
+      obtain ⟨x, r1⟩ := p
+      simp only [hr] at h
+      obtain ⟨c, hc, hbody⟩ := readValue_split body r1 x hr
+      obtain ⟨pre, cs, fuel, hpre, hparse, hlen⟩ := readValues_spec n r1 rest h
+      obtain ⟨y, hy⟩ := parseFuel_cons c hc fuel pre cs hparse
+      exact ⟨c ++ pre, y :: cs, fuel + 1, by rw [hbody, hpre, List.append_assoc], hy, by simp [hlen]⟩
+
+/-- **`new_from_frame`**: the `SerializedValues` it builds from request bytes satisfies the same invariant — the
+count read from the frame is the number of cells in the bytes it kept, at most 65535 — and it consumed exactly
+`[short n]` ++ those bytes (the rest of the buffer is left for the caller). -/
+theorem new_from_frame_inv (buf rest : Bytes) (sv : SV) (h : newFromFrame buf = some (sv, rest)) :
+    Inv sv ∧ ∃ a b, buf = [a, b] ++ sv.bytes ++ rest := by
+  match buf, h with
+  | a :: b :: body, h =>
+    simp only [newFromFrame] at h
+    cases hr : readValues (beNat [a, b]) body with
+    | none => simp [hr] at h
+    | some r =>
+      simp only [hr, Option.some.injEq, Prod.mk.injEq] at h
+      obtain ⟨hsv, hrest⟩ := h
+      subst hrest hsv
+      obtain ⟨pre, cs, fuel, hpre, hparse, hlen⟩ := readValues_spec _ _ _ hr
+      have htake : List.take (body.length - r.length) body = pre := by
+        rw [hpre]; simp
+      have hlt : beNat [a, b] < 256 ^ 2 := ScyllaVerif.Proofs.Vint.beNat_lt [a, b]
+      refine ⟨⟨by simp only []; omega, cs, ?_, hlen⟩, a, b, ?_⟩
+      · simp only [htake]; exact parseFuel_canon _ _ _ hparse
+      · simp only [htake, hpre]; simp
+  | [], h => simp [newFromFrame] at h
+  | [_], h => simp [newFromFrame] at h
+
+example : newFromFrame [0, 2, 0xff, 0xff, 0xff, 0xff, 0, 0, 0, 1, 7, 9, 9] =
+    some (⟨[0xff, 0xff, 0xff, 0xff, 0, 0, 0, 1, 7], 2⟩, [9, 9]) ∧ newFromFrame [0, 2, 0, 0, 0, 1, 7] = none := by
+  decide +kernel
+
+end RowBind
 
 /-! ## Part 4 — the documentation's compatibility matrix
 
